@@ -47,6 +47,40 @@ CLAIMED = {
    note=TRUST_MIR + "tantivy's commit is atomic. Crash points are covered as 'between any two effects': the rules are "
         "orderings that hold on every path, not sampled crash points.",
    design="4/C15"),
+ "C16": dict(
+   technique="path summary of the indexing routine (symbolic document), call-site/slice rules on lookup, static decoding of the shipped data, index-term distinguishability over the shipped constants, exact character-partition run of the word lexer",
+   text="Decides the necessary structural conditions of findability: Db::load_bytes indexes every constant of a document "
+        "with its payload and every token, in order (path summary over a symbolic document); lookup decodes and returns "
+        "the stored payload of the hit; all 878 shipped constants decode completely; with the tokenizer parameters read "
+        "from the code no two typable constants with different words have identical index terms; the query lexer accepts "
+        "the whole reference word alphabet. Not decided: which document wins tantivy's ranking.",
+   note=TRUST_MIR + "tantivy ranks by BM25 over the n-gram terms; the ranking outcome itself is outside static reach.",
+   design="4/C16"),
+ "C17": dict(
+   technique="table bijection (constants, statics, match arms, released ids, generator spec), impl-pair agreement, AST attribute rule, static CBOR decoding of shipped data",
+   text="Decides that identifiers are unique, stable (equal to the released table the shipped data was written with) and "
+        "bijective with the unit statics and the decode match; that the hand-written Serialize/Deserialize pairs of Derived "
+        "and Rational use the same wire type; that no serde attribute alters the wire form of the types a Constant is made "
+        "of; and that all 878 shipped constants decode against today's type definitions and id table.",
+   note=TRUST_MIR + "serde_cbor / serde_json / num serde impls and attribute-free derives round-trip (trusted).",
+   design="4/C17"),
+ "C18": dict(
+   technique="non-interference by control dependence and liveness, who-writes census, call-graph reachability",
+   text="Decides that the describe flag is read at exactly one place; that what depends on it is exactly one unconditional "
+        "push of (the looked-up phrase, a clone of the matched constant) and nothing the value is computed from; that "
+        "nobody else mutates the descriptions; that evaluation can reach no index or file-system mutation and only holds "
+        "shared references to a Db without interior mutability.",
+   note=TRUST_MIR + "tantivy's searcher is read-only (trusted).",
+   design="4/C18"),
+ "C19": dict(
+   technique="path summary of main (symbolic results, effect log of writes), compared with the specified line per path condition",
+   text="Decides, for 0..2 symbolic query results, that on every path of any::main the writes for an Ok result are exactly "
+        "the exact or the 12/12/true decimal rendering, a space iff has_numerator(), and the unit displayed with "
+        "!value.is_one(); that an Err result is rendered by term::emit and the loop continues; that the only early exits "
+        "are I/O failures; and that descriptions are printed in recorded order. Not decided: the text produced by the "
+        "Display impls (C08).",
+   note=TRUST_MIR + "Display impls render their values; structopt fills Opts from the command line.",
+   design="4/C19"),
 }
 
 NA = {
